@@ -5,8 +5,8 @@
 From LC Require Import Lib.Bytes Lib.Lex Lib.Fields Lib.PathM Gen.Consts
   Model.MountInfo Model.FsTree Model.Kernel Model.Layers Cases.Verdict Cases.LC Cases.C01
   Proofs.MountInfoP Proofs.MntSimP Proofs.MntWpP Proofs.MntTraceP Proofs.MntDiskP
-  Proofs.MntOrderP Proofs.MntKernelP Proofs.MntPathP Proofs.MntNeededP Proofs.MntCountP.
-From Coq Require Import ZifyBool ZifyNat.
+  Proofs.MntOrderP Proofs.MntKernelP Proofs.MntPathP Proofs.MntNeededP Proofs.MntCountP Proofs.MntPostP.
+From Coq Require Import ZifyBool ZifyNat ZifyN.
 Import LC LCS.
 Open Scope N_scope.
 
@@ -246,6 +246,190 @@ Proof.
   lia.
 Qed.
 
+(* ------------------------------------------------------------------ (d) third part: kind and source; mount_post *)
+(* whatever is already mounted on an expected mountpoint is of the right kind/source *)
+Definition pre_right (c : cfgT) (f : fsT) (ch : list layer) (tab : list kline) : bool :=
+  forallb (fun x => forallb (fun em =>
+    match top_at tab (em_target em) with
+    | Some k => if em_overlay em then is_right_overlay c (layers_on_disk c f) x k
+                else shows_source tab k (em_source em) (em_fstype em)
+    | None => true
+    end) (expected_mounts c ch x)) ch.
+(* the expected mountpoints of the chain are pairwise different *)
+Definition nodup_targets (c : cfgT) (ch : list layer) : bool :=
+  nodup_paths (map em_target (expected_chain_mounts c ch)).
+(* the three directories named in an overlay's option string contain no comma *)
+Definition nocomma_paths (c : cfgT) (m : lmap) (ch : list layer) : bool :=
+  forallb (fun x => match l_base x with
+                    | [] => true
+                    | b0 => match lm_get m b0 with
+                            | Some p => nosepb comma (build_path c p)
+                            | None => true
+                            end
+                            && nosepb comma (upper_path c x) && nosepb comma (work_path c x)
+                    end) ch.
+(* the ids of the table are decimal numbers below the next id; fewer than 10^24 ids are used *)
+Definition ids_ok (ks : kstate) : bool :=
+  forallb (fun k => (dv (k_id k) 0 <? ks_nextid ks) && beq (dec (dv (k_id k) 0)) (k_id k)) (ks_tab ks).
+Definition id_bound (ks : kstate) : bool := ks_nextid ks <? id_limit.
+
+Lemma ids_ok_idsok ks : ids_ok ks = true -> idsok ks.
+Proof.
+  unfold ids_ok, idsok. rewrite forallb_forall. intros H k Hk. specialize (H k Hk).
+  apply andb_true_iff in H as [H1 H2]. apply beq_true in H2.
+  exists (dv (k_id k) 0). split; [lia|now symmetry].
+Qed.
+
+Lemma nodup_paths_NoDup l : nodup_paths l = true -> NoDup l.
+Proof.
+  induction l as [|x r IH]; cbn [nodup_paths]; intros H; constructor.
+  - apply andb_true_iff in H as [H _]. apply negb_true_iff in H. intros Hin.
+    assert (E : memb x r = true) by (apply existsb_exists; exists x; split; [exact Hin|apply beq_refl]).
+    congruence.
+  - apply andb_true_iff in H as [_ H]. now apply IH.
+Qed.
+
+Lemma chain_base_get c f n x : In x (chain c f n) -> l_base x <> [] ->
+  exists p, lm_get (layers_on_disk c f) (l_base x) = Some p.
+Proof.
+  unfold chain. set (m := layers_on_disk c f).
+  destruct (ancestors_and_self (S (length m)) m n []) as [ch|] eqn:Ea; [|intros []].
+  intros Hin Hb. destruct (anc_linked _ _ _ _ _ Ea) as (pre & E & _ & Hl).
+  rewrite app_nil_r in E. subst pre.
+  apply in_split in Hin as (q1 & q2 & ->).
+  change (q1 ++ x :: q2) with (q1 ++ [x] ++ q2) in Hl. rewrite app_assoc in Hl.
+  destruct (linked_prefix _ _ _ _ _ Hl) as (n' & Hl').
+  apply linked_snoc_inv in Hl' as (_ & _ & Hl').
+  pose proof (linked_nonempty _ _ _ Hl' Hb) as Hne.
+  destruct q1 as [|p q1' _] using rev_ind; [congruence|].
+  apply linked_snoc_inv in Hl' as (_ & Hg & _). now exists p.
+Qed.
+
+Lemma layer_items_shape c m x : Forall item_shape (layer_items c m x).
+Proof.
+  unfold layer_items, ovl_items, imp_items. apply Forall_app. split.
+  - destruct (l_base x); constructor; [|constructor]. intros _. reflexivity.
+  - destruct (expand_config_mounts c m x); [|constructor].
+    apply Forall_forall. intros it Hit. apply in_map_iff in Hit as (y & <- & _). intros H. discriminate H.
+Qed.
+
+Lemma right_link c f n x it tab k :
+  In x (chain c f n) -> In it (layer_items c (layers_on_disk c f) x) ->
+  nocomma_paths c (layers_on_disk c f) (chain c f n) = true ->
+  right_it it tab k
+  = (if em_overlay (item_em it) then is_right_overlay c (layers_on_disk c f) x k
+     else shows_source tab k (em_source (item_em it)) (em_fstype (item_em it))).
+Proof.
+  intros Hx Hit Hnc. set (m := layers_on_disk c f) in *.
+  unfold right_it, item_em. cbn [em_overlay em_source em_fstype].
+  destruct (it_refresh it) eqn:Erf; [reflexivity|]. cbn [negb].
+  unfold layer_items in Hit. apply in_app_or in Hit as [Hit|Hit].
+  2:{ apply imp_items_refresh in Hit. congruence. }
+  unfold nocomma_paths in Hnc. rewrite forallb_forall in Hnc. specialize (Hnc x Hx).
+  unfold ovl_items in Hit. destruct (l_base x) as [|b0 br] eqn:Eb; [destruct Hit|].
+  destruct Hit as [<-|[]].
+  destruct (chain_base_get c f n x Hx) as (p & Ep); [rewrite Eb; discriminate|].
+  fold m in Ep. rewrite Eb in Ep. rewrite Ep in Hnc.
+  apply andb_true_iff in Hnc as [Hnc H3]. apply andb_true_iff in Hnc as [H1 H2].
+  unfold is_right_overlay, dget. cbn [it_data]. fold m. rewrite Eb, Ep.
+  rewrite (parse_ovl_data c p x H1 H2 H3). unfold data_get. cbn [last_opt].
+  change (beq (bs "lowerdir") (bs "lowerdir")) with true.
+  change (beq (bs "upperdir") (bs "lowerdir")) with false.
+  change (beq (bs "workdir") (bs "lowerdir")) with false.
+  change (beq (bs "lowerdir") (bs "upperdir")) with false.
+  change (beq (bs "upperdir") (bs "upperdir")) with true.
+  change (beq (bs "workdir") (bs "upperdir")) with false.
+  change (beq (bs "lowerdir") (bs "workdir")) with false.
+  change (beq (bs "upperdir") (bs "workdir")) with false.
+  change (beq (bs "workdir") (bs "workdir")) with true.
+  cbv iota. reflexivity.
+Qed.
+
+Lemma in_chain_items c f n it : In it (concat (chain_items c f n)) ->
+  exists x, In x (chain c f n) /\ In it (layer_items c (layers_on_disk c f) x).
+Proof.
+  intros H. apply in_concat in H as (its & Hits & Hit). unfold chain_items in Hits.
+  apply in_map_iff in Hits as (x & <- & Hx). now exists x.
+Qed.
+
+Theorem C01_post_partial_proof cfg w e n um : plain_env e = true ->
+  wf_table (ks_tab (wo_ks w)) = true ->
+  is_abs (c_layers cfg) = true ->
+  no_root_import cfg (chain cfg (wo_fs w) n) = true ->
+  rbind_clear cfg (chain cfg (wo_fs w) n) = true ->
+  nostack0 cfg (chain cfg (wo_fs w) n) (ks_tab (wo_ks w)) = true ->
+  pre_right cfg (wo_fs w) (chain cfg (wo_fs w) n) (ks_tab (wo_ks w)) = true ->
+  nodup_targets cfg (chain cfg (wo_fs w) n) = true ->
+  nocomma_paths cfg (layers_on_disk cfg (wo_fs w)) (chain cfg (wo_fs w) n) = true ->
+  ids_ok (wo_ks w) = true ->
+  id_bound (wo_ks (v_after (mview cfg w e n um))) = true ->
+  v_res (mview cfg w e n um) = ROk ->
+  C01.mount_post cfg (wo_fs w) (layers_on_disk cfg (wo_fs w)) (chain cfg (wo_fs w) n)
+    (ks_tab (wo_ks (v_after (mview cfg w e n um)))) = true.
+Proof.
+  intros He Hw Habs Hnr Hrc Hns Hpr Hnd Hnc Hids Hbound Hr.
+  pose proof (C01_post_count_partial_proof cfg w e n um He Hw Habs Hnr Hrc Hns Hr) as Hcount.
+  pose proof (C01_post_mounted_proof cfg w e n um He Hw Hr) as Hm.
+  destruct (mview_trace cfg w e n um He) as (stat & Ht & Hok & _).
+  destruct (Hok Hr) as [-> Hex]. clear Hok.
+  pose proof (ltrace_g cfg _ _ _ _ _ _ Ht Hw (chain_layer_clean cfg (wo_fs w) n Habs Hnr)) as Hg.
+  set (ch := chain cfg (wo_fs w) n) in *. set (m := layers_on_disk cfg (wo_fs w)) in *.
+  set (w1 := v_after (mview cfg w e n um)) in *.
+  assert (Eexp : expected_chain_mounts cfg ch = map item_em (concat (chain_items cfg (wo_fs w) n))).
+  { unfold expected_chain_mounts, chain_items. apply expected_is_items; [apply incl_refl|exact Hex]. }
+  set (its := concat (chain_items cfg (wo_fs w) n)) in *.
+  set (T := map em_target (expected_chain_mounts cfg ch)).
+  assert (Hem_of : forall x it, In x ch -> In it (layer_items cfg m x) -> In (item_em it) (expected_mounts cfg ch x)).
+  { intros x it Hx Hit. destruct (items_expected cfg (wo_fs w) n x Hx) as (rest & E & _).
+    fold ch m in E. rewrite E. apply in_or_app. left. now apply in_map. }
+  destruct (gtrace_right T _ _ _ _ _ Hg eq_refl (ids_ok_idsok _ Hids)) as (_ & _ & Hall).
+  - unfold id_bound in Hbound. apply N.ltb_lt in Hbound. exact Hbound.
+  - (* what is mounted beforehand is right *)
+    intros it Hit Hin. destruct (in_chain_items _ _ _ _ Hit) as (x & Hx & Hitx). fold ch m in Hx, Hitx.
+    apply mounted_at_in in Hin. unfold mounted_at in Hin.
+    destruct (top_at (ks_tab (wo_ks w)) (it_tgt it)) as [k|] eqn:Etop; [|discriminate].
+    destruct (top_at_some _ _ _ Etop) as [Hk1 Hk2].
+    exists k. split; [exact Hk1|]. split; [exact Hk2|].
+    rewrite (right_link cfg (wo_fs w) n x it _ k Hx Hitx Hnc).
+    unfold pre_right in Hpr. rewrite forallb_forall in Hpr. specialize (Hpr x Hx).
+    rewrite forallb_forall in Hpr. specialize (Hpr _ (Hem_of x it Hx Hitx)).
+    cbn [item_em em_target] in Hpr. rewrite Etop in Hpr. exact Hpr.
+  - intros it t Hit Ht0 Hfl. unfold rbind_clear in Hrc. rewrite forallb_forall in Hrc.
+    assert (Hem : In (item_em it) (expected_chain_mounts cfg ch)) by (rewrite Eexp; now apply in_map).
+    specialize (Hrc _ Hem). cbn [item_em em_fstype em_target] in Hrc.
+    rewrite (mount_flags_rbind _ Hfl) in Hrc. cbn [negb orb] in Hrc.
+    rewrite forallb_forall in Hrc. unfold T in Ht0. apply in_map_iff in Ht0 as (em2 & <- & Hem2).
+    specialize (Hrc _ Hem2). now apply negb_true_iff in Hrc.
+  - intros it Hit. unfold T. rewrite Eexp, map_map. cbn [item_em em_target].
+    now apply (in_map it_tgt).
+  - unfold nodup_targets in Hnd. apply nodup_paths_NoDup in Hnd.
+    rewrite Eexp, map_map in Hnd. exact Hnd.
+  - apply Forall_forall. intros it Hit. destruct (in_chain_items _ _ _ _ Hit) as (x & _ & Hitx).
+    pose proof (layer_items_shape cfg (layers_on_disk cfg (wo_fs w)) x) as Hs.
+    rewrite Forall_forall in Hs. now apply Hs.
+  - (* assemble mount_post *)
+    unfold C01.mount_post. apply forallb_forall. intros x Hx. apply forallb_forall. intros em Hem.
+    assert (Hemc : In em (expected_chain_mounts cfg ch)).
+    { unfold expected_chain_mounts. apply in_flat_map. now exists x. }
+    unfold count_one in Hcount. rewrite forallb_forall in Hcount. pose proof (Hcount _ Hemc) as Hc1.
+    rewrite Hc1. cbn [andb]. apply Nat.eqb_eq in Hc1.
+    destruct (items_expected cfg (wo_fs w) n x Hx) as (rest & E & Hrest).
+    rewrite Forall_forall in Hex. rewrite (Hrest (Hex x Hx)), app_nil_r in E. fold ch m in E.
+    rewrite E in Hem. apply in_map_iff in Hem as (it & <- & Hitx).
+    assert (Hit : In it its).
+    { unfold its, chain_items. apply in_concat. exists (layer_items cfg m x). split; [|exact Hitx].
+      now apply in_map. }
+    destruct (Hall it Hit) as (k & Hk1 & Hk2 & Hk3). fold w1 in Hk1, Hk3.
+    cbn [item_em em_target] in Hc1 |- *.
+    destruct (top_at (ks_tab (wo_ks w1)) (it_tgt it)) as [k'|] eqn:Etop.
+    + destruct (top_at_some _ _ _ Etop) as [Hk1' Hk2'].
+      assert (k' = k) by (eapply count_one_unique; eassumption). subst k'.
+      rewrite (right_link cfg (wo_fs w) n x it _ k Hx Hitx Hnc) in Hk3. exact Hk3.
+    + exfalso. assert (Hmt : mounted_at (ks_tab (wo_ks w1)) (it_tgt it) = true).
+      { apply mounted_at_in. rewrite <- Hk2. now apply in_map. }
+      unfold mounted_at in Hmt. rewrite Etop in Hmt. discriminate.
+Qed.
+
 (* ------------------------------------------------------------------ (e) idempotence *)
 Definition nmlist_beq := list_beq nmount_beq.
 Definition layer_beq (a b : layer) : bool :=
@@ -310,7 +494,7 @@ Qed.
 
 (* ------------------------------------------------------------------ the conjunction *)
 (* step_spec assembled from the parts; the second half of (d) -- mount_post itself -- stays a premise *)
-Theorem C01_model_partial_proof cfg w e n um : plain_env e = true ->
+Theorem C01_model_given_post_proof cfg w e n um : plain_env e = true ->
   wf_table (ks_tab (wo_ks w)) = true ->
   is_abs (c_layers cfg) = true ->
   no_root_import cfg (chain cfg (wo_fs w) n) = true ->
@@ -333,4 +517,25 @@ Proof.
   rewrite Hcmd, Henv, He. cbn [negb]. cbv zeta.
   rewrite Ha, Hb, Hc. cbn [andb].
   destruct (v_res (mview cfg w e n um)) eqn:Er; try reflexivity. now apply Hpost.
+Qed.
+
+(* everything together: under all the hypotheses, and unless the run failed, the whole predicate *)
+Theorem C01_model_partial_proof cfg w e n um : plain_env e = true ->
+  wf_table (ks_tab (wo_ks w)) = true ->
+  is_abs (c_layers cfg) = true ->
+  no_root_import cfg (chain cfg (wo_fs w) n) = true ->
+  psources_rbind cfg (chain cfg (wo_fs w) n) = true ->
+  rbind_clear cfg (chain cfg (wo_fs w) n) = true ->
+  nostack0 cfg (chain cfg (wo_fs w) n) (ks_tab (wo_ks w)) = true ->
+  pre_right cfg (wo_fs w) (chain cfg (wo_fs w) n) (ks_tab (wo_ks w)) = true ->
+  nodup_targets cfg (chain cfg (wo_fs w) n) = true ->
+  nocomma_paths cfg (layers_on_disk cfg (wo_fs w)) (chain cfg (wo_fs w) n) = true ->
+  ids_ok (wo_ks w) = true ->
+  id_bound (wo_ks (v_after (mview cfg w e n um))) = true ->
+  rclass_beq (v_res (mview cfg w e n um)) RFail = false ->
+  C01.step_spec cfg w (mview cfg w e n um) = true.
+Proof.
+  intros He Hw Habs Hnr Hps Hrc Hns Hpr Hnd Hnc Hids Hb Hrf.
+  apply C01_model_given_post_proof; try assumption.
+  intros Hr. now apply C01_post_partial_proof.
 Qed.
